@@ -79,6 +79,16 @@ struct Init {
                     }
                     if (hazard >= 0 && (r.violations[0].op < 0 || r.violations[0].op >= hazard)) r.violations[0].detail += " [zero-req-hazard: op#" + std::to_string(hazard) + " is a collective put to a record variable in which a rank has invalid arguments]";
                 }
+                if (sid == "C08" && r.violations.empty() && r.completed) {
+                    // safe mode: ranks that disagree on the arguments of a collective metadata call must all get the same error code (and the call must have had no effect: the model continued unchanged)
+                    for (size_t i = 0; i < q.ops.size() && r.violations.empty(); i++) {
+                        if (q.ops[i].skip || q.ops[i].note != "multidefine") continue;
+                        int first = 1; bool same = true, all = true; for (auto &rr : r.rcs) { if (i >= rr.size() || !rr[i].executed) { all = false; continue; } if (first == 1) first = rr[i].rc; else if (rr[i].rc != first) same = false; }
+                        if (!all) continue;
+                        std::string codes; for (auto &rr : r.rcs) codes += std::string(" ") + ncmpi_strerrno(rr[i].rc);
+                        if (!same || first == NC_NOERR || first > 0) { sim::ViolationInfo v; v.kind = "oracle:multidefine"; v.op = (int)i; v.detail = op_to_string(q.ops[i]) + ": in safe mode every rank must get the same error for disagreeing arguments, got" + codes; r.violations.push_back(v); }
+                    }
+                }
                 return r;
             };
             p.nontrivial = nt; reg(p);
@@ -491,7 +501,8 @@ struct Init {
                         for (long long B : {1LL << 31, 1LL << 32}) {
                             long long e0 = B / xs - 1; std::vector<long long> st(nd, 0); long long rem = e0; bool ok = true;
                             for (int d = (int)nd - 1; d >= (rec ? 1 : 0); d--) { st[d] = rem % len[d]; rem /= len[d]; } if (rem != 0) ok = false;
-                            if (!ok) continue; if (rec) st[0] = 2;
+                            if (!ok) continue;
+                            if (rec) st[0] = 2;
                             if (st[nd - 1] + 1 < len[nd - 1]) { auto ct = one; ct[nd - 1] = 2; add(st, ct, (int)(k % 2)); } else add(st, one, 0);
                         }
                     }
